@@ -7,7 +7,10 @@ refresh keeps the old tile: what is stored is the fetch result and nothing else,
 path cannot reach the store, creators never remove tiles (C13.c); the re-check of a meta tile
 uses the staleness-aware test for all its tiles (C13.d).
 Added in round 4: a refresh rule of the configuration is evaluated per request, only the seed /
-clean-up tools set a fixed threshold; the bulk creator keeps the do-not-cache mark (C13.i)."""
+clean-up tools set a fixed threshold; the bulk creator keeps the do-not-cache mark (C13.i).
+Added in round 5: task time before the refresh_before option of the cache (C13.j); zoned thresholds
+(C13.k); redis write time (C13.l); per-cache refresh_all (C13.m, shared C12.l); sqlite time
+convention (C13.n, shared C12.e); a single-colour tile is always linked anew (C13.o)."""
 import ast
 
 from ..engine import rule
